@@ -165,7 +165,12 @@ def run (case _impl : String) : String :=
         | some (pfs, []) =>
           let d : Desc := ⟨flavor, snc, forbid, flatFields pfs⟩
           let leaves := leavesOfList pfs
-          if op == "sv" || op == "sr" then
+          if op == "ie" then
+            -- generated `SerializeRow::is_empty`
+            (match attachList pfs (leaves.map (fun _ => none)) with
+             | some (rfs, _) => toString (rowIsEmpty rfs)
+             | none => "bad-case")
+          else if op == "sv" || op == "sr" then
             if leaves.length != vs.length || !((leaves.zip vs).all (fun p => valOk p.1 p.2)) then "bad-case"
             else if op == "sv" then
               (if isFlat pfs then showRes (serValueAt d (leaves.zip vs) (if notUdt then none else some db)) else "bad-case")
